@@ -375,12 +375,12 @@ func blockTable(tr *trace.Buf) {
 	wg.Wait()
 	for w := 0; w < nw; w++ {
 		for _, s := range segs[w] {
-			tr.Emit(mnEvent{Ev: "encblock", Lo: s.lo, Hi: s.hi, W1: s.w1, W2Lo: s.w2lo})
+			tr.Emit(mnEvent{Ev: "encblock", Bytes: []int{}, Phrase: []int{}, Lo: s.lo, Hi: s.hi, W1: s.w1, W2Lo: s.w2lo})
 		}
 	}
 	for w := 0; w < nw; w++ {
 		for _, s := range dsegs[w] {
-			tr.Emit(mnEvent{Ev: "decblock", Lo: s.lo, Hi: s.hi, B0: s.w1 >> 8, B1: s.w1 & 255, B2Lo: s.w2lo})
+			tr.Emit(mnEvent{Ev: "decblock", Bytes: []int{}, Phrase: []int{}, Lo: s.lo, Hi: s.hi, B0: s.w1 >> 8, B1: s.w1 & 255, B2Lo: s.w2lo})
 		}
 	}
 }
